@@ -340,3 +340,55 @@ pub fn receiver_unsettled_tags(receiver: &crate::Receiver) -> Vec<Vec<u8>> {
         .map(|m| m.keys().map(|tag| tag.to_vec()).collect())
         .unwrap_or_default()
 }
+
+/// The reader over the payload chunks of a multi-frame delivery (`util::ByteReader`): successive
+/// `io::Read::read` calls with destinations of the given sizes. Returns, per call, the destination
+/// buffer up to the count returned and that count, and the lengths of the chunks afterwards.
+pub fn chunk_reader_reads(
+    chunks: Vec<Payload>,
+    sizes: &[usize],
+) -> (Vec<(Vec<u8>, usize)>, Vec<usize>) {
+    use std::io::Read;
+    let mut reader = crate::util::ByteReader::verif_new(chunks);
+    let mut out = Vec::new();
+    for n in sizes {
+        let mut dst = vec![0u8; *n];
+        let count = reader.read(&mut dst).unwrap_or(usize::MAX);
+        dst.truncate(count.min(*n));
+        out.push((dst, count));
+    }
+    (out, reader.verif_chunk_lens())
+}
+
+/// Successive `read_exact` calls on the reader over payload chunks; stops at the first failure
+pub fn chunk_reader_read_exact(chunks: Vec<Payload>, sizes: &[usize]) -> Vec<Option<Vec<u8>>> {
+    use std::io::Read;
+    let mut reader = crate::util::ByteReader::verif_new(chunks);
+    let mut out = Vec::new();
+    for n in sizes {
+        let mut dst = vec![0u8; *n];
+        match reader.read_exact(&mut dst) {
+            Ok(()) => out.push(Some(dst)),
+            Err(_) => {
+                out.push(None);
+                break;
+            }
+        }
+    }
+    out
+}
+
+/// The byte iterator over payload chunks: forward, backward, `len()`
+pub fn chunk_byte_iterator(chunks: &Vec<Payload>) -> (Vec<u8>, Vec<u8>, usize) {
+    use crate::util::AsByteIterator;
+    let forward = chunks.as_byte_iterator().copied().collect();
+    let backward = chunks.as_byte_iterator().rev().copied().collect();
+    let len = chunks.as_byte_iterator().len();
+    (forward, backward, len)
+}
+
+/// What a multi-frame delivery is decoded from: `Vec<Payload>::into_reader()`
+pub fn chunk_reader(chunks: Vec<Payload>) -> impl serde_amqp::read::Read<'static> {
+    use crate::util::IntoReader;
+    chunks.into_reader()
+}
